@@ -17,26 +17,48 @@ import (
 type LACase struct {
 	Src  string `json:"src"`
 	Want int64  `json:"want"` // value of the whole consumed text
-	Text string `json:"text"` // matched text the handler must be given
+	Text string `json:"text"` // matched text (regex: all groups) the handler must be given
 	Rest string `json:"rest"`
+	// Re: instead of the stream parser, a regular expression whose zero-width end assertion (\B, $, \z) looks at the
+	// text behind the match; NoCall: that text makes it not match, the name is an ordinary (undefined) variable
+	Re     string `json:"re,omitempty"`
+	NoCall bool   `json:"no_call,omitempty"`
 }
 
 var lookaheadCases = []LACase{
-	{"L5!", 10, "L5", "!"},
-	{"L5! tail", 10, "L5", "! tail"},
-	{"1 + L5!", 11, "L5", "!"},
-	{"1 + L5! 攻击", 11, "L5", "! 攻击"},
-	{"x = L7~ more", 14, "L7", "~ more"},
-	{"[1, 2][0] + L3! x", 7, "L3", "! x"},
-	{"2 * L12~", 48, "L12", "~"},
-	{"L4!!", 8, "L4", "!!"},
-	{"y = 3; y + L1~)", 5, "L1", "~)"},
+	{Src: "L5!", Want: 10, Text: "L5", Rest: "!"},
+	{Src: "L5! tail", Want: 10, Text: "L5", Rest: "! tail"},
+	{Src: "1 + L5!", Want: 11, Text: "L5", Rest: "!"},
+	{Src: "1 + L5! 攻击", Want: 11, Text: "L5", Rest: "! 攻击"},
+	{Src: "x = L7~ more", Want: 14, Text: "L7", Rest: "~ more"},
+	{Src: "[1, 2][0] + L3! x", Want: 7, Text: "L3", Rest: "! x"},
+	{Src: "2 * L12~", Want: 48, Text: "L12", Rest: "~"},
+	{Src: "L4!!", Want: 8, Text: "L4", Rest: "!!"},
+	{Src: "y = 3; y + L1~)", Want: 5, Text: "L1", Rest: "~)"},
+	{Src: "P1x y", Want: 2, Text: "P1 1", Rest: "x y", Re: `P(\d)\B`},
+	{Src: "1 + P1x y", Want: 3, Text: "P1 1", Rest: "x y", Re: `P(\d)\B`},
+	{Src: "P4", Rest: "", Re: `P(\d)\B`, NoCall: true},
+	{Src: "adv，力量检定", Rest: "，力量检定", Re: `adv$`, NoCall: true},
+	{Src: "adv)", Rest: ")", Re: `adv$`, NoCall: true},
+	{Src: "adv", Want: 0, Text: "adv", Rest: "", Re: `adv$`},
+	{Src: "T5 x", Rest: " x", Re: `T(\d+)\z`, NoCall: true},
+	{Src: "1 + T5", Want: 11, Text: "T5 5", Rest: "", Re: `T(\d+)\z`},
 }
 
 func checkLookahead(c LACase, s *rt.Section) *rt.Failure {
 	cfg := vmx.Cfg{OpLimit: 30000, SeedHex: "000102030405060708090a0b0c0d0e0f"}
 	vm := cfg.NewVM()
 	var calls []string
+	handler := func(ctx *ds.Context, groups []string, payload any) (*ds.VMValue, string, error) {
+		calls = append(calls, fmt.Sprint(groups))
+		n, _ := strconv.ParseInt(groups[len(groups)-1], 10, 64)
+		return ds.NewIntVal(ds.IntType(2 * n)), "", nil
+	}
+	if c.Re != "" {
+		return judgeLookahead(c, s, vm, vm.RegCustomDice(c.Re, func(ctx *ds.Context, groups []string, payload any) (*ds.VMValue, string, error) {
+			return handler(ctx, groups, payload)
+		}), &calls)
+	}
 	err := vm.RegCustomDiceParser(func(ctx *ds.Context, st *ds.CustomDiceStream) (*ds.CustomDiceParseResult, error) {
 		if r, ok := st.Read(); !ok || r != 'L' {
 			return &ds.CustomDiceParseResult{Matched: false}, nil
@@ -55,6 +77,10 @@ func checkLookahead(c LACase, s *rt.Section) *rt.Failure {
 		n, _ := strconv.ParseInt(groups[0][1:], 10, 64)
 		return ds.NewIntVal(ds.IntType(2 * n)), "", nil
 	})
+	return judgeLookahead(c, s, vm, err, &calls)
+}
+
+func judgeLookahead(c LACase, s *rt.Section, vm *ds.Context, err error, callsp *[]string) *rt.Failure {
 	if err != nil {
 		return s.NewFailure("harness", "harness:install", c, err.Error(), "the parser registers")
 	}
@@ -62,11 +88,20 @@ func checkLookahead(c LACase, s *rt.Section) *rt.Failure {
 	if pi := rt.Guard(func() { runErr = vm.Run(c.Src) }); pi != nil {
 		return s.NewFailure("no-panic", pi.Sig(), c, pi.Value+"\n"+pi.Stack, "a value")
 	}
+	calls := *callsp
 	got := fmt.Sprintf("err=%v calls=%v", runErr, calls)
 	if runErr == nil {
 		got += fmt.Sprintf(" value=%s rest=%q", vmx.Repr(vm.Ret), vm.RestInput)
 	}
 	want := fmt.Sprintf("err=<nil> calls=[[%s]] value=i%d rest=%q", c.Text, c.Want, c.Rest)
+	if c.NoCall {
+		want = ""
+		if runErr == nil && len(calls) == 0 && vm.RestInput == c.Rest {
+			want = got // the plain language decides the value; what matters is that nothing of the syntax took part
+		} else {
+			want = fmt.Sprintf("no handler call, rest=%q", c.Rest)
+		}
+	}
 	if got != want {
 		return s.NewFailure("lookahead-match", "lookahead:differs", c, got, want)
 	}
